@@ -249,6 +249,36 @@ theorem recorded_value_is_probability_of_current_error (cfg : Cfg) (draws : Nat 
     (h : chainStep cfg draws s j rate = .ok (s', t)) : Rec cfg s' :=
   chainStep_rec cfg draws s s' j rate t hr h
 
+/-- … so after any `_run(k)` on a fresh object, for every chain, the last entry of its
+    `log_p_errors` list is the probability — at THAT chain's rate — of THAT chain's current
+    error: what the estimator later subtracts are log-probabilities of different errors -/
+theorem run_records_own_rate_probability_of_own_error (cfg : Cfg) (draws : Nat → Draw) (k : Nat)
+    (s' : State) (tr : List StepTrace) (h : runTr cfg draws k (State.init cfg) = .ok (s', tr)) :
+    ∀ (i : Nat) (ds : List Dist) (cur : List Nat) (l : List Rat), cfg.dists[i]? = some ds →
+      s'.current[i]? = some cur → s'.logP[i]? = some l →
+      ∀ x, l.getLast? = some x → errorProbability ds cur = some x :=
+  runTr_init_preserves cfg draws (Rec cfg)
+    (fun s s1 j rate t hp hc => chainStep_rec cfg draws s s1 j rate t hp hc)
+    (fun _ _ hp => hp) (fun cur _ => rec_init cfg cur) k s' tr h
+
+/-- the chain at the highest rate (chain 0, decoder 0) is inside the failure set of its decoder
+    after every `_run(k)` on a fresh object; so is every chain `i` whose decoder also fails on
+    the common initial error -/
+theorem run_keeps_chains_in_failure_set (cfg : Cfg) (draws : Nat → Draw) (k : Nat) (i : Nat)
+    (s' : State) (tr : List StepTrace) (h : runTr cfg draws k (State.init cfg) = .ok (s', tr))
+    (hi : i = 0 ∨ ∀ cur dec e, initialise cfg = .ok cur → cfg.decoders[i]? = some dec → e ∈ cur →
+      fails cfg.dt cfg.code dec e = true) :
+    Confined cfg s' i := by
+  refine runTr_init_preserves cfg draws (fun s => Confined cfg s i)
+    (fun s s1 j rate t hp hc => chainStep_confined cfg draws s s1 j i rate t hp hc)
+    (fun _ _ hp => hp) ?_ k s' tr h
+  intro cur hcur dec e hd he
+  have hmem : e ∈ cur := List.mem_of_getElem? he
+  rcases hi with h0 | hall
+  · subst h0
+    exact initialise_confined cfg cur hcur dec e hd hmem
+  · exact hall cur dec e hcur hd hmem
+
 /-- `get_results()` before `postprocess()` raises (`1 - []`): and nothing in `_run` or in the
     batch layer calls `postprocess` -/
 theorem get_results_before_postprocess_raises (cfg : Cfg) (draws : Nat → Draw) (k : Nat)
